@@ -6,7 +6,6 @@ import (
 	"hash/crc32"
 	"io"
 	"reflect"
-	"strings"
 
 	"github.com/rs/zerolog/log"
 )
@@ -109,49 +108,46 @@ func (d *decoder) decodeCompactArray(v value, elemType reflect.Type, decodeElem 
 
 func (d *decoder) decodeRecordV0(v value) {
 	x := &RecordV0{}
-	x.Unknown = d.readInt8()
+	x.Unknown = d.readVarInt() // length of the record
 	x.Attributes = d.readInt8()
-	x.TimestampDelta = d.readInt8()
-	x.OffsetDelta = d.readInt8()
+	x.TimestampDelta = d.readVarInt()
+	x.OffsetDelta = d.readVarInt()
 
-	x.KeyLength = int8(d.readVarInt())
-	key := strings.Builder{}
-	for i := 0; i < int(x.KeyLength); i++ {
-		key.WriteString(fmt.Sprintf("%c", d.readInt8()))
-	}
-	x.Key = key.String()
+	x.KeyLength = d.readVarInt()
+	x.Key = d.readVarString(x.KeyLength)
 
-	x.ValueLen = int8(d.readVarInt())
-	value := strings.Builder{}
-	for i := 0; i < int(x.ValueLen); i++ {
-		value.WriteString(fmt.Sprintf("%c", d.readInt8()))
-	}
-	x.Value = value.String()
+	x.ValueLen = d.readVarInt()
+	x.Value = d.readVarString(x.ValueLen)
 
-	headerLen := d.readInt8() / 2
+	headerLen := d.readVarInt()
 	headers := make([]RecordHeader, 0)
-	for i := 0; i < int(headerLen); i++ {
-		header := &RecordHeader{}
+	// every header takes at least one byte: stop with the message or at the first error
+	for i := int64(0); i < headerLen && d.remain > 0 && d.err == nil; i++ {
+		header := RecordHeader{}
 
-		header.HeaderKeyLength = int8(d.readVarInt())
-		headerKey := strings.Builder{}
-		for j := 0; j < int(header.HeaderKeyLength); j++ {
-			headerKey.WriteString(fmt.Sprintf("%c", d.readInt8()))
-		}
-		header.HeaderKey = headerKey.String()
+		header.HeaderKeyLength = d.readVarInt()
+		header.HeaderKey = d.readVarString(header.HeaderKeyLength)
 
-		header.HeaderValueLength = int8(d.readVarInt())
-		headerValue := strings.Builder{}
-		for j := 0; j < int(header.HeaderValueLength); j++ {
-			headerValue.WriteString(fmt.Sprintf("%c", d.readInt8()))
-		}
-		header.Value = headerValue.String()
+		header.HeaderValueLength = d.readVarInt()
+		header.Value = d.readVarString(header.HeaderValueLength)
 
-		headers = append(headers, *header)
+		headers = append(headers, header)
 	}
 	x.Headers = headers
 
 	v.val.Set(valueOf(x).val)
+}
+
+// readVarString reads the n bytes that follow a varint length (negative: null), never more
+// than what is left of the message.
+func (d *decoder) readVarString(n int64) string {
+	if n <= 0 {
+		return ""
+	}
+	if n > int64(d.remain) {
+		n = int64(d.remain)
+	}
+	return bytesToString(d.read(int(n)))
 }
 
 func (d *decoder) discardAll() {
